@@ -42,7 +42,7 @@ CHECKS = {
     ),
     "C18": dict(
         category="exploration",
-        technique="mutation-based property testing: Hypothesis-generated well-formed machines structurally mutated (and arbitrary JSON values / mutated queue events); validator totality, validator-accepts => runs without structural failure on the real engine, and poison isolation beside healthy executions under generated schedules",
+        technique="mutation-based property testing plus coverage-guided fuzzing: Hypothesis-generated well-formed machines structurally mutated (and arbitrary JSON values / mutated queue events), and an atheris/libFuzzer campaign with a structure-aware JSON tree mutator seeded with machines using every state type; validator totality, validator-accepts => runs without structural failure on the real engine, and poison isolation beside healthy executions under generated schedules",
         text=("Well-formed machines (Pass/Task/Wait/Choice/Succeed/Fail, nested Parallel/Map) are mutated: dropped / wrongly typed / extra fields, retargeted Next/Default/StartAt (nowhere, other scope), "
               "retagged Type, names duplicated across scopes, Next+End, End:false, empty States, Choice rule shapes, renamed states. (A) StateLint.validate must return a list of strings for every value incl. arbitrary JSON; "
               "(B) mutants it accepts are stored with validate_asl on and executed: they must start, end, and not fail with States.Runtime or raise in the engine; (C) rejected mutants / arbitrary objects stored with "
@@ -233,7 +233,7 @@ def main():
         })
     man = {
         "version": 1,
-        "setup_cmd": "/venv/bin/python -c 'import hypothesis' 2>/dev/null || /venv/bin/pip install --no-index --find-links /opt/veriftools/wheels hypothesis",
+        "setup_cmd": "(/venv/bin/python -c 'import hypothesis' 2>/dev/null || /venv/bin/pip install --no-index --find-links /opt/veriftools/wheels hypothesis) && (PYTHONPATH=/verif/.deps /venv/bin/python -c 'import atheris' 2>/dev/null || /venv/bin/pip install -q --no-index --find-links /opt/veriftools/wheels --target /verif/.deps atheris)",
         "hooks": {
             "guard": "LSF_VERIF",
             "enable": "no source hooks exist: checks import /repo's working tree directly (env LSF_VERIF=1 is exported by ./check for any future guarded hook); third-party modules pika/redis/pottery are substituted by fakes on sys.path",
